@@ -208,6 +208,7 @@ struct H {
     cfg: Cfg,
 }
 
+#[cfg_attr(feature = "async-trait", ractor::async_trait)]
 impl Actor for H {
     type Msg = HMsg;
     type State = ();
